@@ -53,6 +53,29 @@ def run(ck: vlib.Check):
         ck.violation(f"C09:interpolation:gid={m['gid']}", f"wire position off the line through its end points: {m}", m)
     for m in impl["hist_bad"]:
         ck.violation("C09:private-copy", f"in-place modification of a handed-out table changed a later lookup: {m}", m)
+    # every lookup as the FIRST geometry call of a fresh interpreter with an empty numba cache (quick: the per-layer and gid-building ones + a
+    # sample; thorough: all): kernels freeze the arrays they see at compile time, so the order of first uses must not matter
+    from concurrent.futures import ThreadPoolExecutor
+    names = (["mdc_layer_to_is_stereo", "mdc_layer_to_superlayer", "get_mdc_gid", "get_emc_gid", "mdc_gid_z_to_x", "mdc_gid_z_to_y"]
+             + [f"mdc_gid_to_{x}" for x in ("superlayer", "layer", "wire", "stereo", "is_stereo", "west_x", "west_y", "west_z", "east_x", "east_y", "east_z")]
+             + [f"emc_gid_to_{x}" for x in ("part", "theta", "phi", "center_x", "center_y", "center_z", "front_center_x", "front_center_y", "front_center_z", "point_x", "point_y", "point_z")])
+    if ck.tier == "quick":
+        names = names[:6] + ck.rng.sample(names[6:], 4)
+
+    def first_call(nm):
+        return nm, vlib.run_impl_script("c09_first_impl.py", [nm], timeout=600, cache_dir=ck.bdir / f"nb_first_{nm}")
+    with ThreadPoolExecutor(8) as ex:
+        firsts = list(ex.map(first_call, names))
+    ck.cov["first_call_of_fresh_interpreter"] = {}
+    for nm, (rc1, so1, se1) in firsts:
+        ck.case(["first-call", nm])
+        if rc1 != 0:
+            ck.tie_broken("correspondence", f"fresh-interpreter first call {nm}", (se1 or so1)[-600:])
+            continue
+        bad = json.loads(so1)["results"].get(nm)
+        ck.cov["first_call_of_fresh_interpreter"][nm] = bad or "ok"
+        if bad:
+            ck.violation(f"C09:first-call-of-fresh-interpreter:{nm}", f"{nm} as the {bad}", {"mode": "first-call", "function": nm})
     for f in impl["findings"]:
         if "gids" in f:
             h = hashlib.sha1(json.dumps(sorted(f["gids"])).encode()).hexdigest()[:10]
@@ -64,6 +87,12 @@ def run(ck: vlib.Check):
 
 def replay(path):
     print(open(path).read()[:4000])
+    rp = (json.load(open(path)).get("replay") or {})
+    if rp.get("mode") == "first-call":
+        rc, so, se = vlib.run_impl_script("c09_first_impl.py", [rp["function"]], timeout=600)
+        bad = json.loads(so)["results"].get(rp["function"]) if rc == 0 else (se or so)[-400:]
+        print("current:", bad or "ok")
+        return 1 if bad else 0
     rc, so, se = vlib.run_impl_script("c09_impl.py", [1, "quick"], timeout=900)
     r = json.loads(so)
     bad = r["mismatches"] or r["interp_bad"] or r["findings"] or r["hist_bad"]
